@@ -889,8 +889,11 @@ class XsdElement(XsdComponent, ParticleMixin,
                 if not counter.enabled:
                     continue
 
-            if counter.elements is None:
-                # Apply selector on Element ancestor for obtain the selected elements
+            if counter.elements is None or \
+                    obj not in counter.elements and context.source.is_lazy():
+                # Apply selector on Element ancestor for obtain the selected elements.
+                # With a lazy resource the tree grows during the parsing, so the
+                # selection has to be renewed for the elements that are missing.
                 root_node = context.source.get_xpath_node(counter.elem)
                 xpath_context = XPathContext(root_node)
                 assert identity.selector is not None
